@@ -7,8 +7,8 @@
     over rustc 1.95's [binary_search_by], resp. by the reference association list.
     [desc l]: the vector is in strictly descending priority order (true of the empty vector).
     Priorities are [Z]; [i32_min] is the only place where the width of [i32] matters. *)
-From KV Require Import Bytes RustStd Registry PresentLine RunOrder
-     RustStdProofs RegistryProofs PresentLineProofs RunOrderProofs.
+From KV Require Import Bytes RustStd Registry PresentLine RunOrder RunSpec
+     RustStdProofs RegistryProofs PresentLineProofs RunOrderProofs RunSpecProofs.
 Open Scope N_scope.
 
 (** ---- 1. rustc 1.95's [binary_search_by] ---- *)
@@ -96,6 +96,23 @@ Proof. intros e rs H. apply ext_run_refines. exact H. Qed.
 Theorem extensions_new_descending : ext_desc extensions_empty /\ ext_desc extensions_new.
 Proof. split; [exact extensions_empty_desc|exact extensions_new_desc]. Qed.
 
+(** A start state read from the implementation ([Extensions::new()] as the running code lists it) is
+    accepted by the model only when its vectors are strictly descending: the refinement applies to it. *)
+Theorem extensions_start_state_descending : forall (x : xval) (e : extensions),
+  d_extensions x = Some e -> ext_desc e.
+Proof. exact d_extensions_desc. Qed.
+
+(** The three hash maps: an insert adds exactly that key (an equal key is replaced: the value bound
+    afterwards is the new one), a remove deletes exactly that key. *)
+Theorem registry_key_sets : forall (k : bytes) (m : list bytes) (q : bytes),
+  (In q (key_insert k m) <-> q = k \/ In q m) /\ (In q (key_remove k m) <-> q <> k /\ In q m).
+Proof. intros. split; [apply key_insert_in|apply key_remove_in]. Qed.
+
+Theorem registry_maps_are_maps : forall (X : Type) (m : list (bytes * X)) (k : bytes) (v : X) (q : bytes),
+  assoc q (map_insert k v m) = (if beq k q then Some v else assoc q m) /\
+  assoc q (map_remove k m) = (if beq k q then None else assoc q m).
+Proof. intros. split; [apply assoc_map_insert|apply assoc_map_remove]. Qed.
+
 (** The macro as it was before the repair aa785b7 ([probe.0.cmp(&id)]) is refuted: on [10,5,1], remove 10. *)
 Theorem remove_sorted_list_v0_refuted :
   exists (l : list (Z * N)) (p : Z), desc l /\ remove_sorted_list_v0 l p <> Ok (ref_remove l p).
@@ -150,6 +167,57 @@ Theorem present_v0_refuted :
   empty_args_next_v0 = Panic /\ empty_args_next = Ok None.
 Proof. vm_compute. repeat split; try reflexivity. eexists. split; reflexivity. Qed.
 
+(** [PresentArgumentsIter] is double-ended (kvarn_extensions' templates read [arguments.iter().rev()]):
+    reading from the back yields the arguments of the forward reading in reverse order, ... *)
+Theorem args_rev_is_reverse : forall (data : bytes) (exts : list posdata) (pa : span) (l : list bytes),
+  pa_args args_end data exts pa = Ok l -> pa_args_back data exts pa = Ok (rev l).
+Proof. exact args_rev_is_reverse_model. Qed.
+
+(** ... any interleaving of [next] and [next_back] behaves as a deque on the list of arguments (in
+    particular it never panics where the forward reading does not), ... *)
+Theorem args_double_ended : forall (data : bytes) (exts : list posdata) (pa : span) (l : list bytes) (sched : list bool),
+  pa_args args_end data exts pa = Ok l -> pa_args_drive data exts pa sched = Ok (deque_drive sched l).
+Proof. exact args_double_ended_model. Qed.
+
+(** ... which yields every argument at most once, from both ends in order, and all of them once the
+    schedule is as long as the list. *)
+Theorem deque_each_once : forall (sched : list bool) (l : list bytes),
+  exists mid, l = fst (deque_drive sched l) ++ mid ++ rev (snd (deque_drive sched l)) /\
+              (length l <= length sched -> mid = [])%nat.
+Proof. exact deque_each_once_model. Qed.
+
+(** For arbitrary bytes: reading every extension's arguments from the back never panics and gives the
+    reversed lists. *)
+Theorem present_rev_never_panics : forall data : bytes,
+  present_parse_rev data =
+  match present_parse data with
+  | Ok (Some p) => Ok (Some (map (fun e => (fst e, snd e, rev (snd e))) (p_entries p)))
+  | Ok None => Ok None
+  | Err e => Err e
+  | Panic => Panic
+  end.
+Proof. intros. apply (present_parse_de_char pa_args_back (@rev bytes)). intros. apply args_rev_is_reverse_model. assumption. Qed.
+
+Theorem present_sched_never_panics : forall (sched : list bool) (data : bytes),
+  present_parse_sched sched data =
+  match present_parse data with
+  | Ok (Some p) => Ok (Some (map (fun e => (fst e, snd e, deque_drive sched (snd e))) (p_entries p)))
+  | Ok None => Ok None
+  | Err e => Err e
+  | Panic => Panic
+  end.
+Proof.
+  intros. apply (present_parse_de_char (fun d e pa => pa_args_drive d e pa sched) (deque_drive sched)).
+  intros. apply args_double_ended_model. assumption.
+Qed.
+
+Example args_double_ended_nonvacuous :
+  present_parse_sched [true; false; false; true; true] (B "!> tmpl a b c d &> x" ++ [10])
+  = Ok (Some [(B "tmpl", [B "a"; B "b"; B "c"; B "d"], ([B "a"; B "b"], [B "d"; B "c"])); (B "x", [], ([], []))]) /\
+  present_parse_rev (B "!> tmpl a b c" ++ [13; 10]) = Ok (Some [(B "tmpl", [B "a"; B "b"; B "c"], [B "c"; B "b"; B "a"])]) /\
+  empty_args_drive [false; true; false] = Ok ([], []).
+Proof. vm_compute. repeat split; reflexivity. Qed.
+
 (** ---- 4. run order (for arbitrary extension behaviours) ---- *)
 
 (** Prime extensions run one after the other in list order, each exactly once; the one at
@@ -167,39 +235,43 @@ Theorem prime_all_once_in_order : forall (l : list (Z * prime_ext)) (st : bytes 
   map event_prio (snd (resolve_prime l st)) = map (fun e => Some (fst e)) l.
 Proof. exact prime_trace_prios. Qed.
 
-(** A path-bound Prepare wins: no predicate is consulted, no predicate-bound extension runs. *)
-Theorem prepare_single_first : forall (single : list (bytes * handler)) (fns : list (Z * ((bytes -> bool) * handler)))
-                                      (st : bytes * option bytes) (h : handler),
+(** A path-bound Prepare (looked up by the PATH of the override URI, else of the request URI — a
+    query does not matter) wins: no predicate-bound extension runs.  For any response type [R]. *)
+Theorem prepare_single_first : forall (R : Type) (single : list (bytes * (bytes -> R)))
+                                      (fns : list (Z * ((bytes -> bool) * (bytes -> R))))
+                                      (st : bytes * option bytes) (h : bytes -> R),
   assoc (prepare_key st) single = Some h ->
   resolve_prepare single fns st = (Some (h (fst st)), [EPrepareSingle (prepare_key st) (fst st)]).
-Proof. exact prepare_single_first_model. Qed.
+Proof. exact @prepare_single_first_model. Qed.
 
 (** Otherwise exactly the first predicate-bound Prepare whose predicate holds runs — later
     matching ones do not —, and none when no predicate holds. *)
-Theorem first_predicate_only : forall (single : list (bytes * handler)) (l1 : list (Z * ((bytes -> bool) * handler)))
-                                      (i : Z) (pred : bytes -> bool) (h : handler)
-                                      (l2 : list (Z * ((bytes -> bool) * handler))) (st : bytes * option bytes),
+Theorem first_predicate_only : forall (R : Type) (single : list (bytes * (bytes -> R)))
+                                      (l1 : list (Z * ((bytes -> bool) * (bytes -> R))))
+                                      (i : Z) (pred : bytes -> bool) (h : bytes -> R)
+                                      (l2 : list (Z * ((bytes -> bool) * (bytes -> R)))) (st : bytes * option bytes),
   assoc (prepare_key st) single = None ->
   Forall (fun e => fst (snd e) (fst st) = false) l1 -> pred (fst st) = true ->
   resolve_prepare single (l1 ++ (i, (pred, h)) :: l2) st = (Some (h (fst st)), [EPrepareFn i (fst st)]).
-Proof. exact first_predicate_only_model. Qed.
+Proof. exact @first_predicate_only_model. Qed.
 
-Theorem no_matching_prepare : forall (single : list (bytes * handler)) (fns : list (Z * ((bytes -> bool) * handler)))
+Theorem no_matching_prepare : forall (R : Type) (single : list (bytes * (bytes -> R)))
+                                     (fns : list (Z * ((bytes -> bool) * (bytes -> R))))
                                      (st : bytes * option bytes),
   assoc (prepare_key st) single = None -> Forall (fun e => fst (snd e) (fst st) = false) fns ->
   resolve_prepare single fns st = (None, []).
-Proof. exact no_prepare_model. Qed.
+Proof. exact @no_prepare_model. Qed.
 
 (** Present: for a body that starts with a line of the grammar, the extensions named on the
     line that are registered run in the order of the line with exactly their arguments (after
     the predicate-bound and the file-extension ones), and the body handed on is the rest. *)
-Theorem present_line_order : forall (pfns : list (Z * (bytes -> bool))) (pfile pint : list bytes) (path : bytes)
+Theorem present_line_order : forall (pfns : list (Z * (bytes -> bool))) (pfile pint : list bytes) (uri : bytes)
                                     (ws : list bytes) (crlf : bool) (rest : bytes),
   line_words_ok ws ->
-  resolve_present present_parse pfns pfile pint path (render_line ws crlf ++ rest) =
+  resolve_present present_parse pfns pfile pint uri (render_line ws crlf ++ rest) =
   Ok (rest,
-      map (fun x => EPresentFn (fst x)) (filter (fun x => snd x path) pfns)
-      ++ (match path_extension path with Some e => if bmem e pfile then [EPresentFile e] else [] | None => [] end)
+      map (fun x => EPresentFn (fst x)) (filter (fun x => snd x uri) pfns)
+      ++ (match path_extension (uri_path uri) with Some e => if bmem e pfile then [EPresentFile e] else [] | None => [] end)
       ++ map (fun e => EPresentInternal (fst e) (snd e))
              (filter (fun e => bmem (fst e) pint) (group_words None (nonempty_words ws)))).
 Proof.
@@ -214,39 +286,209 @@ Theorem package_post_once : forall (X : Type) (l : list (Z * X)),
   (desc l -> NoDup (resolve_package l) /\ NoDup (resolve_post l)).
 Proof. exact @package_post_once_model. Qed.
 
-(** One request (no response cache, no file system): never a panic; the trace is Prime*,
-    Prepare?, Present*, every Package, every Post — in this order. *)
-Theorem serve_stages : forall (b : behaviours) (path : bytes),
-  exists status body present_tr,
-    serve present_parse b path =
+(** EVERY response — generated or served from the response cache, to GET, HEAD or another
+    method, for a safe or an unsafe path, with or without a (satisfiable or not) range, from a
+    Prepare extension, a file or an error page — is answered (never a panic) with the trace:
+    every Prime, then (only when the response is generated) at most one Prepare and the Present
+    extensions, then every Package, then every Post extension. *)
+Theorem package_post_every_response : forall (h : hostcfg) (c : cache) (r : creq),
+  exists status body prep pres,
+    fst (serve present_parse h c r) =
     (Ok (status, body),
-     snd (resolve_prime (b_prime b) (path, None))
-     ++ snd (resolve_prepare (b_single b) (b_prepare_fn b) (prime_state (b_prime b) (path, None)))
-     ++ present_tr
-     ++ map (fun e => EPackage (fst e)) (b_package b)
-     ++ map (fun e => EPost (fst e)) (b_post b))
-    /\ Forall is_present_event present_tr.
+     snd (resolve_prime (b_prime (h_b h)) (q_uri r, None)) ++ prep ++ pres
+     ++ map (fun e => EPackage (fst e)) (b_package (h_b h))
+     ++ map (fun e => EPost (fst e)) (b_post (h_b h)))
+    /\ Forall is_prepare_event prep /\ (length prep <= 1)%nat /\ Forall is_present_event pres.
 Proof.
-  intros b path. apply serve_stages_model. intros d.
-  destruct (present_parse_total d) as (r & E & _). exists r. exact E.
+  intros h c r. apply package_post_every_response_model. intros d.
+  destruct (present_parse_total d) as (x & E & _). exists x. exact E.
 Qed.
 
-(** Edits, then requests: the host built by the macros answers every request with the trace
-    of the host built by the reference map, whose five vectors are strictly descending — so
+(** A response served from the cache runs neither Prepare nor Present (and the cache stays as it is);
+    all Prime, Package and Post extensions run all the same. *)
+Theorem cache_hit_skips_prepare_present : forall (h : hostcfg) (c : cache) (r : creq) (st : bytes * option bytes) (sb : centry),
+  fst (resolve_prime (b_prime (h_b h)) (q_uri r, None)) = st ->
+  cache_hit h c (sanitize r) (q_method r) (key_uri st) = Some sb ->
+  serve present_parse h c r =
+  ((Ok (respond (q_method r) (sanitize r) 1 sb),
+    snd (resolve_prime (b_prime (h_b h)) (q_uri r, None))
+    ++ map (fun e => EPackage (fst e)) (b_package (h_b h)) ++ map (fun e => EPost (fst e)) (b_post (h_b h))), c).
+Proof. intros h c r st sb H1 H2. apply (cache_hit_skips_model present_parse h c r st sb H1 H2). Qed.
+
+(** Edits, then a history of requests: the host built by the macros answers every request with the
+    trace of the host built by the reference map, whose five vectors are strictly descending — so
     "list order" above is descending priority order. *)
-Theorem run_order_after_edits : forall (parse : bytes -> outcome (option parsed)) (es : list pedit) (paths : list bytes),
-  run_scenario model_step parse es paths = run_scenario ref_step parse es paths /\
+Theorem run_order_after_edits : forall (parse : bytes -> outcome (option parsed)) (es : list pedit) (o : hostopts) (rs : list creq),
+  run_scenario model_step parse es o rs = run_scenario ref_step parse es o rs /\
   pc_desc (pconfig_build ref_step es).
 Proof. exact run_order_after_edits_model. Qed.
 
+(** ---- 5. the run order against the DECLARATIVE specification of Model/RunSpec.v ----
+    [serve_spec line h c r out]: a predicate on the answer, the trace and the cache that reads the
+    registry as maps (priority -> extension, key -> extension) and states the clauses of the
+    property on the trace; it mentions neither [serve] nor the [resolve_*] drivers nor the
+    order of the vectors. *)
+
+(** What the specification says, spelled out (these equivalences pin the definitions of Model/RunSpec.v:
+    a weaker definition no longer matches the statement). *)
+Theorem spec_all_once_desc_is : forall (X : Type) (l : list (Z * X)) (ps : list Z),
+  all_once_desc l ps <->
+  (StronglySorted (fun a c => (c < a)%Z) ps /\ forall p, In p ps <-> ref_mem l p = true).
+Proof. intros. apply iff_refl. Qed.
+
+Theorem spec_stage_is : forall (X : Type) (mk : Z -> event) (l : list (Z * X)) (tr : list event),
+  stage_spec mk l tr <-> exists ps, tr = map mk ps /\ all_once_desc l ps.
+Proof. intros. apply iff_refl. Qed.
+
+Theorem spec_prime_is : forall (b : behaviours) (st : bytes * option bytes) (tr : list event) (st' : bytes * option bytes),
+  (prime_chain b st tr st' <->
+   match tr with
+   | [] => st' = st
+   | e :: tr' => exists i pr, e = EPrime i (fst st) /\ ref_get (b_prime b) i = Some pr /\ prime_chain b (prime_apply pr st) tr' st'
+   end) /\
+  (prime_spec b st tr st' <->
+   prime_chain b st tr st' /\ exists ps, map event_prio tr = map Some ps /\ all_once_desc (b_prime b) ps).
+Proof.
+  intros. split; [|apply iff_refl]. split.
+  - intros H. inversion H; subst; [reflexivity|]. eexists. eexists. repeat split; eassumption.
+  - destruct tr as [|e tr']; [intros ->; constructor|]. intros (i & pr & -> & Hg & Hc). econstructor; eassumption.
+Qed.
+
+Theorem spec_prepare_is : forall (b : behaviours) (st : bytes * option bytes) (resp : option presp) (tr : list event),
+  prepare_spec b st resp tr <->
+  match assoc (prepare_key st) (b_single b) with
+  | Some h => resp = Some (h (fst st)) /\ tr = [EPrepareSingle (prepare_key st) (fst st)]
+  | None =>
+      (exists i pred h,
+         ref_get (b_prepare_fn b) i = Some (pred, h) /\ pred (fst st) = true /\
+         (forall j pred' h', ref_get (b_prepare_fn b) j = Some (pred', h') -> pred' (fst st) = true -> (j <= i)%Z) /\
+         resp = Some (h (fst st)) /\ tr = [EPrepareFn i (fst st)])
+      \/ ((forall j pred' h', ref_get (b_prepare_fn b) j = Some (pred', h') -> pred' (fst st) = false) /\
+          resp = None /\ tr = [])
+  end.
+Proof. intros. apply iff_refl. Qed.
+
+Theorem spec_present_is : forall (line : bytes -> option parsed) (b : behaviours) (uri body body' : bytes) (tr : list event),
+  present_spec line b uri body body' tr <->
+  exists ps,
+    StronglySorted (fun a c => (c < a)%Z) ps /\
+    (forall p, In p ps <-> exists pred, ref_get (b_present_fn b) p = Some pred /\ pred uri = true) /\
+    tr = map EPresentFn ps
+         ++ (match path_extension (uri_path uri) with
+             | Some e => if bmem e (b_present_file b) then [EPresentFile e] else []
+             | None => []
+             end)
+         ++ map (fun e => EPresentInternal (fst e) (snd e))
+                (filter (fun e => bmem (fst e) (b_present_internal b))
+                        (match line body with Some p => p_entries p | None => [] end)) /\
+    body' = match line body with Some p => p_body p | None => body end.
+Proof. intros. apply iff_refl. Qed.
+
+Theorem spec_serve_is : forall (line : bytes -> option parsed) (h : hostcfg) (c : cache) (r : creq)
+                               (out : (outcome (N * bytes) * list event) * cache),
+  serve_spec line h c r out <->
+  exists tr1 st pk po,
+    prime_spec (h_b h) (q_uri r, None) tr1 st /\
+    stage_spec EPackage (b_package (h_b h)) pk /\
+    stage_spec EPost (b_post (h_b h)) po /\
+    match cache_hit h c (sanitize r) (q_method r) (key_uri st) with
+    | Some sb => out = ((Ok (respond (q_method r) (sanitize r) 1 sb), tr1 ++ pk ++ po), c)
+    | None =>
+        exists status body pref tr2 body' tr3,
+          match sanitize r with
+          | SanOk _ => exists resp, prepare_spec (h_b h) st resp tr2 /\ (status, body, pref) = response_of h (q_method r) (fst st) resp
+          | SanUnsafe => (status, body, pref) = (400, [], 1) /\ tr2 = []
+          | SanRange => (status, body, pref) = (416, [], 1) /\ tr2 = []
+          end /\
+          present_spec line (h_b h) (fst st) body body' tr3 /\
+          out = ((Ok (respond (q_method r) (sanitize r) pref (status, body')), tr1 ++ tr2 ++ tr3 ++ pk ++ po),
+                 cache_store h c (q_method r) (key_uri st) pref status body')
+    end.
+Proof. intros. apply iff_refl. Qed.
+
+(** The model satisfies it on every host whose vectors are strictly descending, for every cache
+    state and every request; [parsed_line] is what [PresentExtensions::new] and its iterators
+    return ([present_line_spec]: on a line of the grammar, the names and arguments in order). *)
+Theorem run_order_meets_spec : forall (h : hostcfg) (c : cache) (r : creq),
+  host_desc (h_b h) -> serve_spec parsed_line h c r (serve present_parse h c r).
+Proof. intros. apply serve_meets_spec_gen; [exact parse_is_parsed_line|assumption]. Qed.
+
+(** The specification is not loose: it determines the answer, the trace and the next cache. *)
+Theorem run_order_spec_determines : forall (line : bytes -> option parsed) (h : hostcfg) (c : cache) (r : creq)
+                                           (o1 o2 : (outcome (N * bytes) * list event) * cache),
+  serve_spec line h c r o1 -> serve_spec line h c r o2 -> o1 = o2.
+Proof. exact serve_spec_unique. Qed.
+
+(** Whole histories on the host built by the real macros' model (binary search included) from
+    any sequence of edits: every answer of the history meets the specification, the cache threaded
+    through — so every Package and Post runs once per RESPONSE, not once per cache entry. *)
+Theorem run_order_history_meets_spec : forall (es : list pedit) (o : hostopts) (rs : list creq),
+  history_spec parsed_line (host_of (pconfig_build model_step es) o) [] rs (snd (scenario_model es o rs)).
+Proof.
+  intros es o rs. unfold scenario_model, run_scenario. cbn [snd].
+  apply history_meets_spec_gen; [exact parse_is_parsed_line|].
+  unfold pconfig_build. destruct (pconfig_build_refines_from (number 0 es) pconfig_empty pconfig_empty_desc) as [E Hd].
+  rewrite E. apply behaviours_of_desc. exact Hd.
+Qed.
+
+(** The executable specification the implementation is compared with on every run (reference map +
+    token-level reading of the line) meets the declarative one too, with [spec_present] as the reading. *)
+Theorem run_order_executable_spec_meets_spec : forall (es : list pedit) (o : hostopts) (rs : list creq),
+  history_spec spec_present (host_of (pconfig_build ref_step es) o) [] rs (snd (scenario_spec es o rs)).
+Proof.
+  intros es o rs. unfold scenario_spec, run_scenario. cbn [snd].
+  apply history_meets_spec_gen; [reflexivity|].
+  unfold pconfig_build. destruct (pconfig_build_refines_from (number 0 es) pconfig_empty pconfig_empty_desc) as [_ Hd].
+  apply behaviours_of_desc. exact Hd.
+Qed.
+
+Theorem run_order_history_spec_determines : forall (line : bytes -> option parsed) (h : hostcfg) (rs : list creq) (c : cache)
+                                                   (l1 l2 : list (outcome (N * bytes) * list event)),
+  history_spec line h c rs l1 -> history_spec line h c rs l2 -> l1 = l2.
+Proof. intros line h. exact (history_spec_unique line h). Qed.
+
+(** the reading of the line used by the specification, on the grammar of the property *)
+Theorem parsed_line_on_grammar : forall (ws : list bytes) (crlf : bool) (rest : bytes),
+  line_words_ok ws ->
+  parsed_line (render_line ws crlf ++ rest)
+  = Some {| p_entries := group_words None (nonempty_words ws);
+            p_data_start := length (render_line ws crlf);
+            p_body := rest |}.
+Proof. intros. unfold parsed_line. rewrite present_line_grammar by assumption. reflexivity. Qed.
+
+Definition nv_edit k c p key pl body pref :=
+  {| pe_kind := k; pe_code := c; pe_prio := p; pe_key := key; pe_payload := pl; pe_body := body; pe_pref := pref |}.
 Example run_order_nonvacuous :
-  let es := [ {| pe_kind := 0; pe_code := 0; pe_prio := 1; pe_key := []; pe_payload := PPrime (B "/b") (B "/c"); pe_body := [] |};
-              {| pe_kind := 0; pe_code := 0; pe_prio := 9; pe_key := []; pe_payload := PPrime (B "/a") (B "/b"); pe_body := [] |};
-              {| pe_kind := 5; pe_code := 0; pe_prio := 0; pe_key := B "/c"; pe_payload := PMark; pe_body := B "!> x 1 &> y" ++ [10] ++ B "B" |};
-              {| pe_kind := 6; pe_code := 0; pe_prio := 0; pe_key := B "y"; pe_payload := PMark; pe_body := [] |};
-              {| pe_kind := 3; pe_code := 0; pe_prio := 2; pe_key := []; pe_payload := PMark; pe_body := [] |};
-              {| pe_kind := 3; pe_code := 1; pe_prio := 2; pe_key := []; pe_payload := PMark; pe_body := [] |} ] in
-  scenario_model es [B "/a"] =
-  [(Ok (200, B "B"), [EPrime 9 (B "/a"); EPrime 1 (B "/b"); EPrepareSingle (B "/c") (B "/c");
-                      EPresentInternal (B "y") []; EPackage 2; EPackage 1])].
-Proof. vm_compute. reflexivity. Qed.
+  let es := [ nv_edit 0 0 1 [] (PPrime (B "/b") (B "/c")) [] 0;
+              nv_edit 0 0 9 [] (PPrime (B "/a") (B "/b")) [] 0;
+              nv_edit 5 0 0 (B "/c") PMark (B "!> x 1 &> y 2 3" ++ [10] ++ B "BODY") 1;
+              nv_edit 6 0 0 (B "y") PMark [] 0;
+              nv_edit 5 0 0 (B "/s") PMark (B "!> y" ++ [10] ++ B "S") 3;
+              nv_edit 3 0 2 [] PMark [] 0;
+              nv_edit 3 1 2 [] PMark [] 0;
+              nv_edit 4 0 7 [] PMark [] 0 ] in
+  let o := {| o_cache := true; o_files := None |} in
+  let get u := {| q_method := 0; q_uri := u; q_range := None |} in
+  snd (scenario_model es o [get (B "/a?q=1"); get (B "/c"); {| q_method := 1; q_uri := B "/c"; q_range := None |};
+                            {| q_method := 0; q_uri := B "/c"; q_range := Some (1, 2) |}; get (B "/a/../c");
+                            {| q_method := 0; q_uri := B "/s"; q_range := Some (1, 2) |}; {| q_method := 1; q_uri := B "/s"; q_range := None |}]) =
+  [ (* generated: Prime 9 rewrites /a?q=1 to /b, Prime 1 sees /b and rewrites to /c; path-bound Prepare; Present y; cached under /c *)
+    (Ok (200, B "BODY"), [EPrime 9 (B "/a?q=1"); EPrime 1 (B "/b"); EPrepareSingle (B "/c") (B "/c");
+                          EPresentInternal (B "y") [B "2"; B "3"]; EPackage 2; EPackage 1; EPost 7]);
+    (* served from the cache: no Prepare, no Present; every Package and Post *)
+    (Ok (200, B "BODY"), [EPrime 9 (B "/c"); EPrime 1 (B "/c"); EPackage 2; EPackage 1; EPost 7]);
+    (Ok (200, []), [EPrime 9 (B "/c"); EPrime 1 (B "/c"); EPackage 2; EPackage 1; EPost 7]);
+    (Ok (206, B "OD"), [EPrime 9 (B "/c"); EPrime 1 (B "/c"); EPackage 2; EPackage 1; EPost 7]);
+    (* unsafe path: no Prepare; Package and Post all the same *)
+    (Ok (400, []), [EPrime 9 (B "/a/../c"); EPrime 1 (B "/a/../c"); EPackage 2; EPackage 1; EPost 7]);
+    (* a streamed answer (future): Present on the body before the stream, no range, never cached *)
+    (Ok (200, B "S+streamed"), [EPrime 9 (B "/s"); EPrime 1 (B "/s"); EPrepareSingle (B "/s") (B "/s"); EPresentInternal (B "y") [];
+                                EPackage 2; EPackage 1; EPost 7]);
+    (Ok (200, []), [EPrime 9 (B "/s"); EPrime 1 (B "/s"); EPrepareSingle (B "/s") (B "/s"); EPresentInternal (B "y") [];
+                    EPackage 2; EPackage 1; EPost 7]) ]
+  /\ host_desc (behaviours_of (pconfig_build model_step es)).
+Proof.
+  intros es o get. split; [vm_compute; reflexivity|].
+  unfold pconfig_build. destruct (pconfig_build_refines_from (number 0 es) pconfig_empty pconfig_empty_desc) as [E Hd].
+  rewrite E. apply behaviours_of_desc. exact Hd.
+Qed.
